@@ -38,6 +38,14 @@ DepthOf(n) == CASE n.t = "call" -> 1 + (LET RECURSIVE Mx(_)
                 [] n.t = "pair" -> Max(DepthOf(n.c), DepthOf(n.v))
                 [] OTHER -> 0
 
+RECURSIVE HasMinInt(_)
+\* (an integer literal within a few units of the int64 limits: 19 digits starting with 9)
+HasMinInt(n) == CASE n.t = "bigint" -> Len(n.d) = 19 /\ n.d[1] = 9
+                  [] n.t = "arr" -> \E j \in 1..Len(n.v) : HasMinInt(n.v[j])
+                  [] n.t = "obj" -> \E x \in DOMAIN n.m : HasMinInt(n.m[x])
+                  [] n.t = "call" -> \E j \in 1..Len(n.a) : HasMinInt(n.a[j])
+                  [] n.t = "pair" -> HasMinInt(n.c) \/ HasMinInt(n.v)
+                  [] OTHER -> FALSE
 Judge(e, i) ==
   LET p == e.plan
       rs == [j \in 1..5 |-> IF "eq" \in DOMAIN e.runs[j] THEN e.runs[1] ELSE e.runs[j]]   \* {eq: 1} = identical to run 1
@@ -46,7 +54,11 @@ Judge(e, i) ==
       cell == Cell(p)
       E == Exec(p, e.root)
       fo == Focus(p)
-      mk(kind, loc) == [i |-> i, kind |-> kind, loc |-> loc, cell |-> cell, depth |-> DepthOf(fo),
+      \* does the call the case is about take a big integer (literal, inside a literal container, or read from the root)?
+      argBig(n) == \/ n.t = "bigint" \/ (n.t \in {"arr", "obj"} /\ HasBig(n))
+                   \/ (n.t = "path" /\ Simple(n) /\ LET r == Look(e.root, n.fr) IN r # Missing /\ r.t \in ValueTags /\ HasBig(r))
+      big == fo.t = "call" /\ \E j \in 1..Len(fo.a) : argBig(fo.a[j])
+      mk(kind, loc) == [i |-> i, kind |-> kind, loc |-> loc, cell |-> cell, depth |-> DepthOf(fo), big |-> big,
                         arg1 |-> IF fo.t = "call" /\ Len(fo.a) >= 1 THEN ArgClass(fo.a[1]) ELSE "none"]
       \* ---- Total
       panics == {j \in 1..5 : rs[j].r \notin {"ok", "err"}}
@@ -63,6 +75,7 @@ Judge(e, i) ==
              ELSE <<mk("nondeterministic", <<"fresh", "other">>)>>
       \* ---- PrintRebuild (judged against a freshly built plan, only when fresh plans are deterministic)
       feat == IF \E j \in 1..Len(Calls(p)) : Calls(p)[j].fn \in {"+", "-"} THEN "fn-plus-minus"
+              ELSE IF HasMinInt(p) THEN "int64-edge"
               ELSE IF HasIntegralFloat(p) THEN "integral-float" ELSE "other"
       \* "the same behaviour": same outcome, same root' by value (int/float kinds are not part of the statement)
       prOk(x) == x.r = "skip" \/ x.r = "panic" \/ (x.r = rs[4].r /\ (x.root = rs[4].root \/ Norm(x.root) = Norm(rs[4].root)))
